@@ -455,15 +455,54 @@ func c12Run(r *Run) {
 				return false
 			}
 		}
+		// the stored value is a definition, or a small record built around one (typeEntry{class: c})
+		carriesDefinition := func(e ast.Expr) bool {
+			if isDefinition(info.TypeOf(e)) {
+				return true
+			}
+			if cl, ok := ast.Unparen(e).(*ast.CompositeLit); ok {
+				for _, el := range cl.Elts {
+					v := el
+					if kv, ok := el.(*ast.KeyValueExpr); ok {
+						v = kv.Value
+					}
+					if isDefinition(info.TypeOf(v)) {
+						return true
+					}
+				}
+			}
+			return false
+		}
 		ast.Inspect(fd.Body, func(n ast.Node) bool {
 			switch x := n.(type) {
 			case *ast.AssignStmt:
 				for i, l := range x.Lhs {
-					if ix, ok := ast.Unparen(l).(*ast.IndexExpr); ok && rooted(ix.X) && i < len(x.Rhs) && isDefinition(info.TypeOf(x.Rhs[i])) {
+					if ix, ok := ast.Unparen(l).(*ast.IndexExpr); ok && rooted(ix.X) && i < len(x.Rhs) && carriesDefinition(x.Rhs[i]) {
 						storesDefinition[fd.Name.Name] = true
 					}
 				}
 			case *ast.CallExpr:
+				// a helper of the package that stores what it is given into a table it is given (or into the
+				// helper struct it belongs to): registerOnce(vm.classMap, name, c) / vm.defs.addClass(c)
+				if cal := calleeFunc(info, x); cal != nil && cal.Pkg() == pkg.Types {
+					if hd := declOf(pkg, cal.Origin()); hd != nil && hd != fd && c12StoresParam(info, hd) {
+						passesDef, passesTable := false, false
+						for _, a := range x.Args {
+							if carriesDefinition(a) {
+								passesDef = true
+							}
+							if rooted(a) {
+								passesTable = true
+							}
+						}
+						if se, ok := ast.Unparen(x.Fun).(*ast.SelectorExpr); ok && rooted(se.X) {
+							passesTable = true
+						}
+						if passesDef && passesTable {
+							storesDefinition[fd.Name.Name] = true
+						}
+					}
+				}
 				if se, ok := ast.Unparen(x.Fun).(*ast.SelectorExpr); ok && rooted(se.X) {
 					switch se.Sel.Name {
 					case "Store", "LoadOrStore", "Swap":
@@ -895,4 +934,65 @@ func c12MissBeforeBase(info *types.Info, fd *ast.FuncDecl, base map[string]*ast.
 	}
 	WalkFunc(h, fd.Body, &st{})
 	return bad
+}
+
+// c12StoresParam: the function stores one of its parameters (or a record built around it) into a map that
+// is a parameter of it or a field of its receiver: m[k] = v.
+func c12StoresParam(info *types.Info, fd *ast.FuncDecl) bool {
+	if fd.Body == nil {
+		return false
+	}
+	params := map[types.Object]bool{}
+	if fd.Type.Params != nil {
+		for _, f := range fd.Type.Params.List {
+			for _, nm := range f.Names {
+				params[info.Defs[nm]] = true
+			}
+		}
+	}
+	var recv types.Object
+	if fd.Recv != nil && len(fd.Recv.List) == 1 && len(fd.Recv.List[0].Names) == 1 {
+		recv = info.Defs[fd.Recv.List[0].Names[0]]
+	}
+	mentionsParam := func(e ast.Expr) bool {
+		found := false
+		ast.Inspect(e, func(n ast.Node) bool {
+			if id, ok := n.(*ast.Ident); ok && params[info.Uses[id]] {
+				found = true
+			}
+			return !found
+		})
+		return found
+	}
+	found := false
+	ast.Inspect(fd.Body, func(n ast.Node) bool {
+		as, ok := n.(*ast.AssignStmt)
+		if !ok {
+			return true
+		}
+		for i, l := range as.Lhs {
+			ix, ok := ast.Unparen(l).(*ast.IndexExpr)
+			if !ok || i >= len(as.Rhs) {
+				continue
+			}
+			if _, isMap := info.TypeOf(ix.X).Underlying().(*types.Map); !isMap {
+				continue
+			}
+			base := ast.Unparen(ix.X)
+			okBase := false
+			switch b := base.(type) {
+			case *ast.Ident:
+				okBase = params[info.Uses[b]]
+			case *ast.SelectorExpr:
+				if id, ok := ast.Unparen(b.X).(*ast.Ident); ok && (info.Uses[id] == recv || params[info.Uses[id]]) {
+					okBase = true
+				}
+			}
+			if okBase && mentionsParam(as.Rhs[i]) {
+				found = true
+			}
+		}
+		return !found
+	})
+	return found
 }
